@@ -278,7 +278,7 @@ def run_invocation(script, backend: FakeBackend, plan, seed, schedule=None, limi
 
         ExecutionState.create_checkpoint = cc
         try:
-            handler = durable_execution(interp.handler)
+            handler = durable_execution(script if callable(script) else interp.handler)
             inp = DurableExecutionInvocationInputWithClient(
                 durable_execution_arn="arn:exec", checkpoint_token=backend.token,
                 initial_execution_state=InitialExecutionState(operations=pages[0], next_marker="1" if len(pages) > 1 else ""),
